@@ -86,6 +86,49 @@ def _char_is_whitespace(m, args, raw):
     return z3.Or([c == v for v in ws])
 
 
+def _dec_eq(m, x, y):
+    if isinstance(x, int) and isinstance(y, int):
+        return x == y
+    return m.decide(interp._z(x) == interp._z(y))
+
+
+def _dec_ws(m, c):
+    if isinstance(c, int):
+        return c in (0x20, 0x09, 0x0A, 0x0C, 0x0D)
+    return m.decide(z3.Or([c == v for v in (0x20, 0x09, 0x0A, 0x0C, 0x0D)]))
+
+
+@model("slice::strip_suffix", "slice::strip_prefix")
+def _strip_fix(m, args, raw):
+    items, a, b = as_list(args[0])
+    pi, pa, pb = as_list(args[1])
+    n = pb - pa
+    if n > b - a:
+        return NONE()
+    if "suffix" in raw:
+        ok = all(_dec_eq(m, items[b - n + k], pi[pa + k]) for k in range(n))
+        return Some(SliceRef(items, a, b - n)) if ok else NONE()
+    ok = all(_dec_eq(m, items[a + k], pi[pa + k]) for k in range(n))
+    return Some(SliceRef(items, a + n, b)) if ok else NONE()
+
+
+@model("ascii::trim_ascii", "ascii::trim_ascii_end", "ascii::trim_ascii_start")
+def _trim_ascii(m, args, raw):
+    items, a, b = as_list(args[0])
+    if not raw.endswith("trim_ascii_end"):
+        while a < b and _dec_ws(m, items[a]):
+            a += 1
+    if not raw.endswith("trim_ascii_start"):
+        while b > a and _dec_ws(m, items[b - 1]):
+            b -= 1
+    return SliceRef(items, a, b)
+
+
+@model("Option::unwrap_or")
+def _unwrap_or(m, args, raw):
+    return args[0].fields[0] if args[0].variant in ("Some", "Ok") else args[1]
+
+
 # ----------------------------------------------------------------------------------------------- reference
 def ref_ws(data):
     toks, cur, quote, slash, sawq = [], [], 0, False, False
